@@ -1,5 +1,3 @@
-use std::iter;
-
 use super::ArrivalBound;
 use crate::time::Duration;
 
@@ -37,8 +35,15 @@ impl<T: ArrivalBound + Clone + 'static> ArrivalBound for Propagated<T> {
     }
 
     fn steps_iter<'a>(&'a self) -> Box<dyn Iterator<Item = Duration> + 'a> {
+        // There is a step at delta=1 only if anything arrives at all (the
+        // input may be a process that never releases any jobs).
+        let first_step = if self.number_arrivals(Duration::from(1)) > 0 {
+            Some(Duration::from(1))
+        } else {
+            None
+        };
         Box::new(
-            iter::once(Duration::from(1)).chain(
+            first_step.into_iter().chain(
                 // shift the steps of the input event model earlier by the jitter amount
                 self.input_event_model
                     .steps_iter()
